@@ -52,6 +52,10 @@ def default_inline(f, caller, nargs=0, kwnames=()):
     if f.cls is None and f.parent is None and f.module == caller.module and not f.is_generator \
             and f.name not in ('args_to_key', 'full_name') and len(f.node.body) <= 12:
         return True     # small module-level helper of the same module
+    if f.cls is not None and caller.cls is None and caller.parent is None and caller.module == f.module \
+            and caller.name.startswith('_') and f.name.startswith('_') and not f.name.startswith('__') \
+            and not f.is_property and not f.is_generator and not f.is_contextmanager:
+        return True     # private method called by a private module-level helper that was handed the object
     if f.cls != caller.cls or f.cls is None:
         return False
     if f.is_property:
